@@ -115,8 +115,13 @@ def check_C11(tier, rng, jobs):
     q = tier == QUICK
     mc = [_mc_core("C11", "meta", tier, keys=["k1"], datas=["d1"], algos=["sha256"],
                    times=["1", "2"], metas=["m1", "m2"], dests=[],
-                   fam=["write", "insert", "writer", "lookup"], maxops=4 if q else 5,
-                   invariants=["LookupRefinesMap", "ListMatchesMap"], properties=["OnlyCommitMaps"])]
+                   fam=["write", "insert", "lookup"], maxops=3 if q else 4,
+                   invariants=["LookupRefinesMap", "ListMatchesMap"], properties=["OnlyCommitMaps"]),
+          _mc_core("C11", "meta_writer", tier, keys=["k1"], datas=["d1"], algos=["sha256"],
+                   times=["1"], metas=["m1"], dests=[],
+                   fam=["writer", "lookup"], maxops=4 if q else 5,
+                   invariants=["LookupRefinesMap", "ListMatchesMap", "TmpAccounted"],
+                   properties=["OnlyCommitMaps", "CommitVerdict"])]
     nprog = 30 if q else 400
     progs = [G.history_program(rng, rng.choice([10, 25]) if q else rng.choice([40, 100]),
                                nkeys=rng.choice([3, 6]), ndata=3, removal_weight=0.05, full_opts=True)
@@ -181,7 +186,66 @@ def check_C14(tier, rng, jobs):
                     "operations; tmp/ is polled to quiescence (bound 10 s) and must match the live handles"}
 
 
-CHECKS = {"C02": check_C02, "C05": check_C05, "C08": check_C08, "C09": check_C09, "C10": check_C10,
+def _retrieve_progs(tier, rng):
+    q = tier == QUICK
+    progs = [G.retrieve_program(rng, 10 if q else 30) for _ in range(16 if q else 200)]
+    progs += [G.retrieve_program(rng, 3 if q else 6, big=True) for _ in range(3 if q else 30)]
+    # exhaustive at byte level for small files: every bit flip and every truncation length
+    for n, a in ([(3, "sha256"), (5, "sha1")] if q else [(3, "sha256"), (5, "sha1"), (8, "sha512"),
+                                                          (16, "sha384"), (24, "xxh3"), (64, "sha256")]):
+        progs.append(G.small_exhaustive_program(rng, n, a))
+    return progs
+
+
+def _mc_retrieve(pid, tier):
+    q = tier == QUICK
+    return [_mc_core(pid, "retrieve", tier, keys=["k1"], datas=["d1", "d2"], algos=["sha256", "sha1"],
+                     times=["1"], metas=[], dests=["x1"],
+                     fam=["write", "damage", "ext", "extract", "lookup", "reader"], maxops=4 if q else 5,
+                     invariants=["TypeOK"], properties=["CheckedNeverWrong", "RemovalFrame"])]
+
+
+def check_C01(tier, rng, jobs):
+    mc = _mc_retrieve("C01", tier)
+    progs = _retrieve_progs(tier, rng)
+    agg = RN.run_batches("C01", RN.chunk(progs, 2 if tier == QUICK else 4), jobs=jobs)
+    return {"mc": mc, "agg": agg, "samples": [progs[0]["steps"][:12]],
+            "rule": "entries of 0 B .. >1 MiB under five algorithms; damage classes {bit flip, truncation, "
+                    "extension, empty, overwrite, removal, bytes of another valid entry, swap, symlink to foreign "
+                    "bytes}; every single-bit flip and truncation length of small files; all checked retrieval "
+                    "entry points (read, read_hash, Reader/SyncReader with buffer sizes 1..65536 + check, copy, "
+                    "hard_link, reflink; by key and by address) on five lanes",
+            "coverage_extra": {"exhaustive_part_impl": "all single-bit flips and truncation lengths of the small files listed in the rule"}}
+
+
+def check_C18(tier, rng, jobs):
+    mc = _mc_retrieve("C18", tier)
+    progs = _retrieve_progs(tier, rng)
+    agg = RN.run_batches("C18", RN.chunk(progs, 2 if tier == QUICK else 4), jobs=jobs)
+    return {"mc": mc, "agg": agg, "samples": [progs[1]["steps"][:12]],
+            "rule": "as C01 with the destination observed: existence and bytes of every destination are part of "
+                    "the projection compared after each call; destinations absent and pre-existing; copy count "
+                    "compared with the length",
+            "assumptions": ["reflink success paths cannot occur on this ext4 (FICLONE unsupported); only the "
+                            "verify-then-fail behaviour of reflink* is observed"]}
+
+
+def check_C16(tier, rng, jobs):
+    q = tier == QUICK
+    mc = [_mc_core("C16", "algo", tier, keys=["k1", "k2"], datas=["d1", "d2"], algos=["sha256", "sha1"],
+                   times=["1"], metas=[], dests=[], fam=["write", "remove", "lookup"], maxops=4 if q else 5,
+                   invariants=["TypeOK", "LookupRefinesMap"], properties=["AddressesPure", "RoundTrip", "RemovalFrame"])]
+    progs = [G.algo_program(rng, 12 if q else 40) for _ in range(16 if q else 200)]
+    agg = RN.run_batches("C16", RN.chunk(progs, 2 if q else 4), jobs=jobs)
+    return {"mc": mc, "agg": agg, "samples": [progs[0]["steps"][:10]],
+            "rule": "equal data re-written under the same and different keys through every write entry point "
+                    "and lane under five algorithms while earlier copies exist; returned addresses are mapped to "
+                    "data by hashlib digests (SHA-1/256/384/512) and by the xxhash crate (XXH3); the content "
+                    "area projection (one file per address, bytes equal to the data) is compared after each call",
+            "assumptions": ["XXH3 is compared with the xxhash crate called directly, not with an independent implementation"]}
+
+
+CHECKS = {"C01": check_C01, "C16": check_C16, "C18": check_C18, "C02": check_C02, "C05": check_C05, "C08": check_C08, "C09": check_C09, "C10": check_C10,
           "C11": check_C11, "C14": check_C14}
 
 
